@@ -20,7 +20,7 @@ var propEntries = map[string][]string{
 	"C10": {"(*Mast).Cursor", "(*Cursor).Min", "(*Cursor).Max", "(*Cursor).Get", "(*Cursor).Forward", "(*Cursor).Backward",
 		"(*Cursor).Ceil", "(*Cursor).String", "(*Mast).SeekIter"},
 	"C15": {"(*Mast).DiffIter", "(*Mast).DiffLinks", "(*Mast).StartDiff", "(*DiffCursor).NextEntry", "(*Mast).MakeRoot"}, // the cost bound is between persisted versions: what MakeRoot leaves as root is what the diff compares by name
-	"C03": {"(*Mast).MakeRoot"},
+	"C03": {"(*Mast).MakeRoot", "(*Mast).Clone"}, // a clone persists what it shares with its source: what Clone marks as saved is skipped by the clone's MakeRoot
 	"C05": {"(*Mast).MakeRoot", "(*Root).LoadMast", "NewRoot"},
 	"C19": {"(*Root).LoadMast"},
 	"C12": {"(*Mast).Insert", "(*Mast).Delete", "(*Mast).Get", "(*Mast).Iter", "(*Mast).SeekIter", "(*Mast).DiffIter", "(*Mast).DiffLinks",
